@@ -7,7 +7,7 @@
 (* operation traces with the XjsWriter machine.                            *)
 (* Tokens of a text: [ty, lit, sl, sc, el, ec, lead] from the real lexer.  *)
 (***************************************************************************)
-EXTENDS XjsGrammar, XjsWriter
+EXTENDS XjsGrammar, XjsWriter, FiniteSets
 
 (* ---- text helpers ---- *)
 Lines(code) == SplitLF(code, <<>>)
@@ -19,11 +19,8 @@ LineStartsFrom(code, i, acc) ==
   IF i > Len(code) THEN acc
   ELSE LineStartsFrom(code, i + 1, IF code[i] = 10 THEN Append(acc, i) ELSE acc)
 LineStarts(code) == LineStartsFrom(code, 1, <<0>>)
-RECURSIVE DropOffsets(_, _, _)
 \* the text without the bytes at the given (0-based) offsets
-DropOffsets(code, offs, i) ==
-  IF i > Len(code) THEN <<>>
-  ELSE (IF (i - 1) \in offs THEN <<>> ELSE <<code[i]>>) \o DropOffsets(code, offs, i + 1)
+DropOffsets(code, offs, i) == SelectSeq([j \in 1..Len(code) |-> IF (j - 1) \in offs THEN -1 ELSE code[j]], LAMBDA b : b # -1)
 
 (* ---- token helpers ---- *)
 \* indices of the `;` tokens inside for ( ... ) headers
@@ -51,11 +48,11 @@ Proj2(toks) == [j \in 1..Len(toks) |-> <<toks[j].ty, toks[j].lit>>]
 (* ---- C06 ---- *)
 \* o: outputs of one program by configuration name (records [code, nerr, tree, code2, otoks])
 PrettyNames == {"pretty:default:semi", "pretty:default:nosemi", "pretty:tab:semi", "pretty:tab:nosemi",
-                "pretty:0:semi", "pretty:4:nosemi", "pretty:4:semi", "pretty:8:semi", "pretty:1:nosemi"}
+                "pretty:0:semi", "pretty:0:nosemi", "pretty:4:nosemi", "pretty:4:semi", "pretty:8:semi", "pretty:1:nosemi"}
 SemiOf(name) == name \in {"pretty:default:semi", "pretty:tab:semi", "pretty:0:semi", "pretty:4:semi", "pretty:8:semi"}
 UnitOf(name) == CASE name \in {"pretty:default:semi", "pretty:default:nosemi"} -> "2"
                   [] name \in {"pretty:tab:semi", "pretty:tab:nosemi"} -> "t"
-                  [] name = "pretty:0:semi" -> "0" [] name \in {"pretty:4:nosemi", "pretty:4:semi"} -> "4"
+                  [] name \in {"pretty:0:semi", "pretty:0:nosemi"} -> "0" [] name \in {"pretty:4:nosemi", "pretty:4:semi"} -> "4"
                   [] name = "pretty:8:semi" -> "8" [] name = "pretty:1:nosemi" -> "1"
 \* line i (0-based) starts inside a token that spans several lines (multi-line literal)
 InsideToken(toks, i) == \E j \in 1..Len(toks) : toks[j].sl < i /\ i <= toks[j].el
@@ -92,7 +89,7 @@ NormLead(lead, i, afterBreak, acc) ==
        ELSE NormLead(lead, i + 1, TRUE, Append(acc, lead[i]))
 \* statement-level anchors of the source: first tokens of statements, closing braces of blocks and
 \* function bodies, the end of the input - as indices into NS(stoks)
-NSIndex(toks, j) == j - Len(SelectSeq(SubSeq(toks, 1, j), LAMBDA k : k.ty = "SEMICOLON"))
+NSIndex(toks, j) == j - Cardinality({i \in 1..j : toks[i].ty = "SEMICOLON"})
 Anchors(stree, stoks) ==
   LET reqs == Requests(stree, stoks)
   IN {NSIndex(stoks, reqs[q].tok) : q \in {x \in 1..Len(reqs) : reqs[x].kind \in {"stmt", "close"}}}
@@ -111,13 +108,14 @@ C15_Failures(rec) ==
       \* leading blank marks of the first token and trailing ones of the end-of-input token are dropped
       edge(a, w) == IF a = 1 THEN DropLeadingBlanks(w) ELSE IF a = Len(ns) THEN DropTrailingBlanks(w) ELSE w
       want(a) == edge(a, NormLead(ns[a].lead, 1, a = 1, <<>>))
-      got(n, a) == edge(a, NormLead(NS(o[n].otoks)[a].lead, 1, a = 1, <<>>))
+      nso == [n \in names |-> NS(o[n].otoks)]
+      got(n, a) == edge(a, NormLead(nso[n][a].lead, 1, a = 1, <<>>))
       stmtLevelTotal == [a \in anchors |-> Comments(ns[a].lead)]
   IN
-  (IF \A n \in names : Len(NS(o[n].otoks)) = Len(ns) /\ Proj2(NS(o[n].otoks)) = Proj2(ns) THEN {} ELSE {"pretty_output_changes_tokens"})
-  \cup (IF \A n \in names : Len(NS(o[n].otoks)) # Len(ns) \/ \A a \in anchors : Comments(got(n, a)) = Comments(want(a))
+  (IF \A n \in names : Len(nso[n]) = Len(ns) /\ Proj2(nso[n]) = Proj2(ns) THEN {} ELSE {"pretty_output_changes_tokens"})
+  \cup (IF \A n \in names : Len(nso[n]) # Len(ns) \/ \A a \in anchors : Comments(got(n, a)) = Comments(want(a))
         THEN {} ELSE {"statement_level_comment_lost_moved_or_altered"})
-  \cup (IF \A n \in names : Len(NS(o[n].otoks)) # Len(ns) \/ \A a \in anchors : (Comments(got(n, a)) # Comments(want(a))) \/ got(n, a) = want(a)
+  \cup (IF \A n \in names : Len(nso[n]) # Len(ns) \/ \A a \in anchors : (Comments(got(n, a)) # Comments(want(a))) \/ got(n, a) = want(a)
         THEN {} ELSE {"blank_line_separation_not_kept"})
   \cup (IF \A j \in 1..Len(o["compact"].otoks) : Comments(o["compact"].otoks[j].lead) = <<>> THEN {} ELSE {"compact_output_contains_comment"})
   \* the same program without its comments compiles to the same compact code and the same pretty tokens
